@@ -10,6 +10,7 @@ import enc as ENC
 import nibble as NIB
 import absint as AI
 import acc as ACC
+import interval as IV
 from facts import tokens, fmt, short, walk, strip_sites, op_place, const_int
 
 # thorough tier: release configuration only — the dev-configuration pass reports the debug_assert! contract checks of the
@@ -473,7 +474,66 @@ def checksum_rule(F, R):
         R.ob("CHECKSUM", "%s: checksum = with_pseudoheader(..).add_slice(message).checksum()" % short(p), ok, True)
         if not ok:
             R.violation("CHECKSUM", p, "%s writes a checksum that does not cover the message bytes" % short(p), F.loc(p))
+        # CK-zero: the sum is taken over the output buffer, which includes the checksum field itself: on every path the
+        # field must have been written with constant 0 before the digest reads the buffer (a caller's buffer is not zeroed)
+        adds = [c for c in b.calls if not c.indirect and c.decl.endswith("ChecksumDigest::add_slice") and "param:2" in tokens(b.origin(c.args[1])) and c.bb in b.live_blocks()]
+        zeros = [c.bb for c in ws if PN.const_eval(PN.strip_casts(strip_sites(b.origin(c.args[2])))) == 0]
+        okz = bool(adds) and bool(zeros) and all(T.must_pass(b, [c.bb], zeros)[0] for c in adds)
+        R.ob("CK-zero", "%s: checksum field zeroed on every path before the digest reads the buffer" % short(p), okz, True,
+             {"rule": "CK-zero", "fn": p, "add_slice_sites": len(adds), "zeroing_writes": len(zeros), "holds": okz})
+        if not okz:
+            R.violation("CK-zero", p, "%s sums the output buffer without first clearing the checksum field in it: stale bytes of a reused "
+                        "buffer are folded into the checksum, which then does not verify" % short(p), F.loc(p))
     R.floor("CHECKSUM", n, 11, "UDP/SCMP encoders writing a checksum")
+
+
+CK_NARROW_REVIEWED = {
+    # (fn suffix, src, dst): reason
+    ("ChecksumDigest::with_pseudoheader", "usize", "u32"):
+        "the pseudo-header carries the upper-layer length as a 32-bit field; a message of 4 GiB or more cannot be a SCION payload "
+        "(payload length is 16 bits, enforced by ScionPacket::wire_valid — CAST rule)",
+}
+
+
+def ck_narrow_rule(F, R):
+    """CK-narrow: every narrowing integer cast in the checksum digest keeps the value — the operand's interval, computed by
+    interval interpretation (with 2^16 value partitioning so that carry folds are evaluated relationally) over all inputs,
+    fits the target type.  A single fold `(s >> 16) + (s & 0xffff)` of a u32 can be 0x1fffe: casting that to u16 drops the
+    end-around carry."""
+    n = 0
+    for p in F.all_body_paths("sciparse"):
+        if "scion::checksum::" not in p or T.is_test_support(p):
+            continue
+        b = F.body(p)
+        probes = {}
+        for bb in sorted(b.live_blocks()):
+            for si, st in enumerate(b.stmts(bb)):
+                if st[0] == "=" and st[2][0] == "cast" and st[2][1] == "IntToInt" and st[2][3] in AI.W and st[2][4] in AI.W and AI.W[st[2][3]] > AI.W[st[2][4]]:
+                    probes[(bb, si)] = []
+        if not probes:
+            continue
+        R.fn(p)
+        state = {}
+        IV.eval_iv(F, p, [IV.TOP] * len(F.fns[p].get("inputs") or []), probes=probes, state=state)
+        for (bb, si), vals in sorted(probes.items()):
+            st = b.stmts(bb)[si]
+            src, dst = st[2][3], st[2][4]
+            n += 1
+            m = IV.tymax(dst)
+            reviewed = [r for (sfx, s0, d0), r in CK_NARROW_REVIEWED.items() if p.endswith(sfx) and (s0, d0) == (src, dst)]
+            hi = max((v[0][2] if IV.is_iv(v[0]) else 1 << 128) for v in vals) if vals and not state.get("incomplete") else None
+            ok = hi is not None and m is not None and hi <= m
+            loc = b.span_of(st[3]).loc if len(st) > 3 else F.loc(p)
+            if not ok and reviewed:
+                R.reviewed.append({"rule": "CK-narrow", "fn": p, "cast": "%s -> %s" % (src, dst), "reason": reviewed[0]})
+                R.ob("CK-narrow", "%s: %s -> %s (reviewed)" % (short(p), src, dst), True, False)
+                continue
+            R.ob("CK-narrow", "%s: `as %s` of a %s in [0, %s] is lossless" % (short(p), dst, src, hex(hi) if hi is not None else "?"), ok, True,
+                 {"rule": "CK-narrow", "fn": p, "loc": loc, "cast": "%s -> %s" % (src, dst), "operand_upper_bound": hi, "target_max": m, "holds": ok})
+            if not ok:
+                R.violation("CK-narrow", "%s/%s->%s" % (p, src, dst), "%s casts a %s that can be as large as %s to %s: the end-around carry (or high bits) is dropped, "
+                            "so checksums of some inputs do not verify" % (short(p), src, hex(hi) if hi is not None else "an unbounded value", dst), loc)
+    R.floor("CK-narrow", n, 4, "narrowing integer casts in sciparse::scion::checksum (add_slice, checksum, add_u64, with_pseudoheader)")
 
 
 def run(F, R, tier, cfg):
@@ -486,6 +546,7 @@ def run(F, R, tier, cfg):
     rsv_rule(F, R)
     cast_rule(F, R)
     checksum_rule(F, R)
+    ck_narrow_rule(F, R)
     ENC.install()
     ENC.hostlen_rule(F, R)
     ACC.run(F, R, {}, "enc", 88)        # 94 sites counted on 8f07ce4 (84 in trait encoders, 10 in CommonHeader::encode_unchecked)
